@@ -14,12 +14,14 @@ Open Scope Z_scope.
 
 (* Two streams created with the same seed answer alike for every interleaving:
    streams i and j of one store get the same requests (proj), interleaved
-   arbitrarily with each other and with requests to any other stream. *)
+   arbitrarily with each other and with requests to any other stream.
+   [local_only]: the twins themselves are not asked to take over a state saved
+   by another stream (see C12_restore_from_other_stream_continues for that). *)
 Theorem C12_twin_streams_equal :
   forall (raw : Z -> nat -> Z) (nint : Z -> Z -> Z -> out)
          (ops : list (nat * sop)) (seeds : list Z) (i j : nat) (s : Z),
     nth_error seeds i = Some s -> nth_error seeds j = Some s ->
-    proj i ops = proj j ops ->
+    proj i ops = proj j ops -> local_only (proj i ops) = true ->
     sel i ops (snd (srun raw nint (map fresh seeds) ops)) =
     sel j ops (snd (srun raw nint (map fresh seeds) ops)).
 Proof. exact twin_fresh_streams_equal. Qed.
@@ -31,7 +33,7 @@ Theorem C12_twin_streams_equal_across_runs :
   forall (raw : Z -> nat -> Z) (nint : Z -> Z -> Z -> out)
          (ops1 ops2 : list (nat * sop)) (st1 st2 : list stream) (i : nat) (m : stream),
     nth_error st1 i = Some m -> nth_error st2 i = Some m ->
-    proj i ops1 = proj i ops2 ->
+    proj i ops1 = proj i ops2 -> local_only (proj i ops1) = true ->
     sel i ops1 (snd (srun raw nint st1 ops1)) = sel i ops2 (snd (srun raw nint st2 ops2)).
 Proof. exact other_streams_do_not_matter. Qed.
 Print Assumptions C12_twin_streams_equal_across_runs.
@@ -40,7 +42,7 @@ Example C12_twin_nonvacuous :
   let ops := [(0%nat, NextFloat); (2%nat, NextBool); (1%nat, NextFloat); (0%nat, SetSeed 7);
               (0%nat, NextInt 1 6); (1%nat, SetSeed 7); (2%nat, Reset); (1%nat, NextInt 1 6)] in
   nth_error [5; 5; 9] 0 = Some 5 /\ nth_error [5; 5; 9] 1 = Some 5 /\ proj 0 ops = proj 1 ops
-  /\ length (proj 0 ops) = 3%nat.
+  /\ local_only (proj 0 ops) = true /\ length (proj 0 ops) = 3%nat.
 Proof. repeat split. Qed.
 
 (* reset replays the sequence of the CURRENT seed: after reset() a stream
@@ -98,13 +100,30 @@ Example C12_restore_nonvacuous :
   nsaves [NextFloat; Save; SetSeed 4; NextBool; Reset; Save; Restore 1] = 2%nat.
 Proof. split; reflexivity. Qed.
 
+(* a state saved by one stream restored into ANOTHER stream: the receiving
+   stream keeps its seeds, and its draws continue as the saving stream's draws
+   did after the save (the generator outputs from the saved position on) *)
+Theorem C12_restore_from_other_stream_continues :
+  forall (raw : Z -> nat -> Z) (nint : Z -> Z -> Z -> out)
+         (st : list stream) (i j k : nat) (mi mj : stream) (g : gstate) (ds : list sop),
+    nth_error st i = Some mi -> nth_error st j = Some mj -> nth_error (saved mj) k = Some g ->
+    draws_only ds = true ->
+    exists mi', nth_error (fst (sstep raw nint st (i, RestoreFrom j k))) i = Some mi' /\
+      snd (sstep raw nint st (i, RestoreFrom j k)) = ONone /\
+      cur mi' = cur mi /\ orig mi' = orig mi /\
+      snd (run raw nint mi' ds) = draw_outs raw nint (gseed g) (gpos g) ds.
+Proof. exact cross_restore_continues. Qed.
+Print Assumptions C12_restore_from_other_stream_continues.
+
 (* draws from one stream never alter the sequence of another: what stream i
    returns in an interleaved history over a store, and the state it ends in, is
-   what it returns and ends in when its own requests are applied to it alone. *)
+   what it returns and ends in when its own requests are applied to it alone -
+   whatever the other streams are asked to do (draws, reseeding, restoring
+   states, even states saved by stream i). *)
 Theorem C12_streams_independent :
   forall (raw : Z -> nat -> Z) (nint : Z -> Z -> Z -> out)
          (ops : list (nat * sop)) (st : list stream) (i : nat) (m : stream),
-    nth_error st i = Some m ->
+    nth_error st i = Some m -> local_only (proj i ops) = true ->
     sel i ops (snd (srun raw nint st ops)) = snd (run raw nint m (proj i ops)) /\
     nth_error (fst (srun raw nint st ops)) i = Some (fst (run raw nint m (proj i ops))).
 Proof. exact streams_independent. Qed.
